@@ -25,13 +25,47 @@ func serve(r *rux.Router, method, path string) (int, string) {
 	return rec.Code, rec.Body.String()
 }
 
-func build(tb *model.Table) *rux.Router {
-	r := rux.New(tb.Opts.Rux()...)
-	model.Register(r, tb.Routes, func(d model.RouteDef) rux.HandlerFunc {
+// build registers the table. viaGroup[i] = k > 0 means: route i is registered inside Group(<first k segments>)
+// with the rest of the pattern as its own path - the registered pattern is the same text.
+func build(tb *model.Table, viaGroup []int) *rux.Router {
+	r := tb.Opts.NewRouter()
+	for i, d := range tb.Routes {
 		name := d.Name()
-		return func(c *rux.Context) { c.WriteString(name) }
-	})
+		h := func(c *rux.Context) { c.WriteString(name) }
+		k := 0
+		if i < len(viaGroup) {
+			k = viaGroup[i]
+		}
+		if k <= 0 || k >= len(d.P.Segs) || d.P.Raw != "" {
+			r.AddNamed(name, d.P.String(), h, d.Methods...)
+			continue
+		}
+		prefix := model.Pattern{Segs: d.P.Segs[:k]}.String()
+		rest := model.Pattern{Segs: d.P.Segs[k:], Opt: d.P.Opt, TrailSlash: d.P.TrailSlash}.String()
+		r.Group(prefix, func() { r.AddNamed(name, rest, h, d.Methods...) })
+	}
 	return r
+}
+
+// introspect calls read-only API: none of it may change how requests are routed.
+func introspect(r *rux.Router, which int) {
+	switch which {
+	case 0:
+		_ = r.String()
+	case 1:
+		_ = r.Routes()
+	case 2:
+		r.IterateRoutes(func(rt *rux.Route) { _ = rt.String(); _ = rt.Info() })
+	case 3:
+		for _, rt := range r.NamedRoutes() {
+			_, _, _ = rt.Name(), rt.MethodString(","), rt.HandlerName()
+		}
+	case 4:
+		_ = r.Handlers()
+		_ = r.GetRoute("r0")
+		_ = rux.AnyMethods()
+		_ = r.Err()
+	}
 }
 
 // checkProbe compares rux with the model for one (method, path); it returns an error text or "".
@@ -65,14 +99,31 @@ func prop(t *rapid.T) {
 		tb.Opts.Caching = true
 		tb.Opts.CacheCap = rapid.IntRange(0, 3).Draw(t, "cap")
 	}
+	tb.Opts.Via, tb.Opts.Order = model.GenVia(t), model.GenOrder(t)
 	cfg := model.TableCfg{MaxRoutes: ev.Pick(8, 14), Gen: model.GenCfg{MaxSegs: ev.Pick(3, 4), RichLits: true}}
 	tb.Routes = model.GenRoutes(t, cfg, tb.Opts.Strict)
 	if len(tb.Routes) == 0 {
 		t.Skip("empty table")
 	}
-	r := build(tb)
+	viaGroup := make([]int, len(tb.Routes))
+	for i, d := range tb.Routes {
+		if len(d.P.Segs) >= 2 && rapid.IntRange(0, 3).Draw(t, "viaGroup") == 0 {
+			viaGroup[i] = rapid.IntRange(1, len(d.P.Segs)-1).Draw(t, "groupSegs")
+			ev.Class("route-registered-inside-a-group")
+		}
+	}
+	r := build(tb, viaGroup)
+	for i, d := range tb.Routes {
+		if rt := r.GetRoute(d.Name()); rt == nil || rt.Path() != model.Normalize(d.P.String(), tb.Opts.Strict) {
+			t.Fatalf("route %d registered as %v, pattern %q (group segments %d)\n table: %s", i, rt, d.P.String(), viaGroup[i], tb)
+		}
+	}
 	np := rapid.IntRange(1, 8).Draw(t, "nprobes")
 	for i := 0; i < np; i++ {
+		if rapid.IntRange(0, 5).Draw(t, "introspect") == 0 {
+			introspect(r, rapid.IntRange(0, 4).Draw(t, "introspectWhat"))
+			ev.Class("introspection-between-requests")
+		}
 		path, kind, target, _, _ := model.GenProbePath(t, tb.Routes)
 		var method string
 		if target >= 0 && rapid.IntRange(0, 9).Draw(t, "ownMethod") < 7 {
